@@ -44,6 +44,11 @@ def data(c): return {'k': 'data', 'c': c}
 
 
 # ---------------------------------------------------------------------------------- type facts
+def nt_name(model, n):
+    """__name__ of the NamedTuple bound to variable n (F9: two types may share a __name__)"""
+    return (model.get('named_alias') or {}).get(n, n)
+
+
 def hashable_ty(t, model):
     k = t['k']
     if k == 'leaf':
@@ -230,7 +235,10 @@ def model_source(model):
 
     def emit(item):
         kind, x = item
-        if kind == 'named':
+        if kind == 'named' and nt_name(model, x) != x:
+            out.append('%s = NamedTuple(%r, [%s])' % (x, nt_name(model, x), ', '.join(
+                '(%r, %s)' % (lbl, py_ann(t, model, defined)) for lbl, t in model['named'][x])))
+        elif kind == 'named':
             out.append('class %s(NamedTuple):' % x)
             for lbl, t in model['named'][x]:
                 out.append('    %s: %s' % (lbl, py_ann(t, model, defined)))
@@ -332,7 +340,7 @@ def coq_ty(t, model):
     if k == 'lit':
         return '(TLit %s)' % clist([coq_lit(v) for v in t['vs']])
     if k == 'named':
-        return '(TNamed %s %s)' % (cstr(t['name']), coq_tys(model['named'][t['name']], model))
+        return '(TNamed %s %s)' % (cstr(nt_name(model, t['name'])), coq_tys(model['named'][t['name']], model))
     if k == 'typed':
         d = model['typed'][t['name']]
         return '(TTyped %s %s %s)' % (cstr(t['name']), coq_tys(d['req'], model), coq_tys(d['opt'], model))
@@ -517,13 +525,12 @@ def parse_attr(s):
 
 
 def parse_gen(s):
-    """-> {'err': ...} | {'main','coherent','region','alias','fns': {name: {'kind', 'toks': set}}}"""
+    """-> {'err': ...} | {'main','coherent','distinct','fns': {name: {'kind', 'toks': set}}}"""
     if s.startswith('GENERR'):
         return {'err': s[7:]}
     head, *fns = s.split('#')
     parts = head.split(' ')
-    out = {'main': _unhex(parts[1]), 'coherent': parts[2] == 'coh', 'region': parts[3] == 'reg',
-           'alias': parts[4] == 'alias', 'fns': {}}
+    out = {'main': _unhex(parts[1]), 'coherent': parts[2] == 'coh', 'distinct': parts[3] == 'dist', 'fns': {}}
     for f in fns:
         cols = f.split('|')
         out['fns'][_unhex(cols[0])] = {'kind': cols[1], 'toks': sorted(set(_tok(c) for c in cols[2:]))}
@@ -657,9 +664,11 @@ def walk_generous(t, v, model, out):
     """every leaf of annotation t x every sub-value of v (used where the generated code is known to
     read the wrong position, so that the FAITHFUL model finds an oracle answer for what the code does)"""
     leaves = set()
-    for s in subtypes(t, model):
-        if s['k'] == 'leaf' and s['l'] not in ('none', 'nonebare', 'any'):
-            leaves.add(s['l'])
+    for c in model['classes']:           # the code may route the value through ANY helper of the model
+        for f in c['fields']:
+            for s in subtypes(f['ty'], model):
+                if s['k'] == 'leaf' and s['l'] not in ('none', 'nonebare', 'any'):
+                    leaves.add(s['l'])
     vals = []
     all_subvalues(v, vals)
     for l in sorted(leaves):
